@@ -261,9 +261,24 @@ func (k *Kind[T]) Do(c *Ctx, t T) {
 			c.mu.Unlock()
 		}
 	}
-	if f := k.safeRun(c, t); f != nil {
+	t0 := time.Now()
+	f := k.safeRun(c, t)
+	if d := time.Since(t0); d > 2*time.Second {
+		c.Count("slow_cases_over_2s", 1)
+		if raw, err := json.Marshal(t); err == nil {
+			fmt.Fprintf(os.Stderr, "VERIF-SLOW %s %.1fs %s\n", k.Name, d.Seconds(), clipBytes(raw, 600))
+		}
+	}
+	if f != nil {
 		c.Violate(k.Name, t, f)
 	}
+}
+
+func clipBytes(b []byte, n int) string {
+	if len(b) > n {
+		return string(b[:n]) + "…"
+	}
+	return string(b)
 }
 
 const sampleKeep = 4
